@@ -892,6 +892,15 @@ func newDischarger(tier string) *Discharger {
 	return d
 }
 
+// ufBudget: seconds for one attempt with the nonlinear products abstracted (most value-level
+// goals are decided this way in a few seconds; under load they need more).
+func (d *Discharger) ufBudget() int {
+	if b := d.fullS / 3; b > 10 {
+		return b
+	}
+	return 10
+}
+
 func (d *Discharger) cleanup() { os.RemoveAll(d.workdir) }
 
 func (d *Discharger) prepare(o *Obligation, getValues []*Term) (string, error) {
@@ -1104,7 +1113,7 @@ func (d *Discharger) discharge(o *Obligation) {
 			tag = ", goal-directed"
 			lastReduced = lt
 		}
-		if tryUF(lu, tag, 10) {
+		if tryUF(lu, tag, d.ufBudget()) {
 			return
 		}
 		lid := int(atomic.AddInt64(&d.nq, 1))
@@ -1137,7 +1146,7 @@ func (d *Discharger) discharge(o *Obligation) {
 		return
 	}
 	if text != lastReduced {
-		if tryUF(uf, "", 10) {
+		if tryUF(uf, "", d.ufBudget()) {
 			return
 		}
 	}
